@@ -19,7 +19,7 @@ import sys
 import time
 
 VERIF = os.path.dirname(os.path.dirname(os.path.abspath(__file__)))
-LEAN = os.path.join(VERIF, 'lean')
+LEAN = os.environ.get('VERIF_LEAN', os.path.join(VERIF, 'lean'))
 WORK = os.path.join(VERIF, 'work')
 REPO = os.environ.get('VERIF_REPO', '/repo')
 EXE = os.path.join(LEAN, '.lake', 'build', 'bin', 'pyx12model')
@@ -43,7 +43,8 @@ def seed():
 # --------------------------------------------------------------------------- Lean side
 
 def _lock():
-    f = open(os.path.join(WORK, '.lake.lock'), 'w')
+    os.makedirs(os.path.join(LEAN, '.lake'), exist_ok=True)
+    f = open(os.path.join(LEAN, '.lake', 'verif.lock'), 'w')
     fcntl.flock(f, fcntl.LOCK_EX)
     return f
 
